@@ -149,6 +149,9 @@ func (m *machine) Next(t *rapid.T) Op {
 	}
 	if swMultiDenom {
 		ws = append(ws, w{"rate", 1})
+		if swRateOutage {
+			ws = append(ws, w{"rate", 3})
+		}
 	}
 	nUnavail := 0
 	for _, k := range m.bindOrd {
@@ -355,6 +358,9 @@ func (m *machine) Next(t *rapid.T) Op {
 	case "params":
 		return Op{Kind: "params", Params: m.drawParams(t)}
 	case "rate":
+		if swRateOutage && uni(t, "rate/outage", 3) == 0 {
+			return Op{Kind: "rate", Denom: pickFrom(t, "rate/denom", []string{"btc", "eth"})}
+		}
 		return Op{Kind: "rate", Denom: pickFrom(t, "rate/denom", []string{"btc", "eth"}),
 			Rate: pickFrom(t, "rate/value", []string{"2", "0.5", "1", "0.001", "1000", "1.5", "0.333333"})}
 	default:
